@@ -196,7 +196,7 @@ func runC06(c *Ctx) error {
 func runC06Schedules(c *Ctx) error {
 	iters := 250
 	if !c.quick() {
-		iters = 4000
+		iters = 16000
 	}
 	apis := []string{"message", "writev", "async", "broadcast", "file", "ping", "writevasync"}
 	for it := 0; it < iters; it++ {
